@@ -114,13 +114,6 @@ def showSpec (cmd : Cmd) : SpecOut → List (String × String)
   | .files fs => [("exit", "0"), ("files", showFiles cmd fs), ("listed", showNames cmd (fs.map (·.1)))]
   | .rejected _ => [("baddiag", "yes"), ("badgen", "-")]
 
-/-- all assignments name ↦ index for the names that have several candidate files -/
-def assignments : List (String × Nat) → List (List (String × Nat))
-  | [] => [[]]
-  | (n, k) :: r => (assignments r).flatMap (fun a => (List.range k).map (fun i => (n, i) :: a))
-
-def oracleOf (a : List (String × Nat)) : Oracle := fun n => (a.lookup n).getD 0
-
 /-- merge the observables of several possible outcomes: agreeing values stay, others become `oneof a | b` -/
 def mergeObs (runs : List (List (String × String))) : List (String × String) :=
   match runs with
@@ -142,11 +135,7 @@ def cli16Case (id : String) (payload : List Sexp) : List String :=
       let reg := region cmd pkg fl
       let sp := spec cmd pkg fl
       let bad := match sp with | some (.rejected b) => some b | _ => none
-      let multi := (fl.types.eraseDups.map (fun n => (n, ((cands n pkg).eraseDups).length))).filter (·.2 > 1)
-      -- candidate lists are used without de-duplication by `pick`; enumerate indices into the raw list
-      let multiRaw := multi.map (fun (n, _) => (n, (cands n pkg).length))
-      let asg := (assignments multiRaw).take 64
-      let runs := asg.map (fun a => showOutcome cmd bad (run (oracleOf a) cmd pkg fl))
+      let runs := [showOutcome cmd bad (run cmd pkg fl)]
       let model := mergeObs runs
       let specLines := match sp with | some s => showSpec cmd s | none => []
       let info := match bad with | some b => [s!"{id} info bad {",".intercalate b}"] | none => []
